@@ -20,6 +20,8 @@ pub struct SodiumCtx {
     node_count: Arc<AtomicUsize>,
     node_ref_count: Arc<AtomicUsize>,
     threaded_mode: Arc<ThreadedMode>,
+    #[cfg(sodiumfrp_sodium_rust_verif)]
+    verif_update_log: Arc<Mutex<Vec<u32>>>,
 }
 
 pub struct SodiumCtxData {
@@ -139,6 +141,8 @@ impl SodiumCtx {
             node_count: Arc::new(AtomicUsize::new(0)),
             node_ref_count: Arc::new(AtomicUsize::new(0)),
             threaded_mode: Arc::new(single_threaded_mode()),
+            #[cfg(sodiumfrp_sodium_rust_verif)]
+            verif_update_log: Arc::new(Mutex::new(Vec::new())),
         }
     }
 
@@ -335,6 +339,8 @@ impl SodiumCtx {
                 });
         // if dependencies changed, then execute update on current node
         if any_changed {
+            #[cfg(sodiumfrp_sodium_rust_verif)]
+            self.verif_update_log.lock().push(node.gc_node.verif_id());
             let mut update = node.data.update.write();
             let update: &mut Box<_> = &mut *update;
             update();
@@ -356,5 +362,31 @@ impl SodiumCtx {
 
     pub fn collect_cycles(&self) {
         self.gc_ctx.collect_cycles();
+    }
+}
+
+// ---- verification hooks (compiled only with the guard) ----
+
+#[cfg(sodiumfrp_sodium_rust_verif)]
+impl SodiumCtx {
+    /// Ids (gc ids) of the nodes whose `update` was run by `update_node`, in order, since the last call.
+    pub fn verif_take_update_log(&self) -> Vec<u32> {
+        let mut log = self.verif_update_log.lock();
+        mem::take(&mut *log)
+    }
+
+    /// (transaction_depth, changed_nodes, pre_eot, pre_post, post, keep_alive, allow_collect_cycles_counter)
+    pub fn verif_queue_lengths(&self) -> (u32, usize, usize, usize, usize, usize, u32) {
+        self.with_data(|data: &mut SodiumCtxData| {
+            (
+                data.transaction_depth,
+                data.changed_nodes.len(),
+                data.pre_eot.len(),
+                data.pre_post.len(),
+                data.post.len(),
+                data.keep_alive.len(),
+                data.allow_collect_cycles_counter,
+            )
+        })
     }
 }
